@@ -134,18 +134,16 @@ theorem pValues_put (vs : List (Option Bytes)) (r : Bytes) (h : ∀ v ∈ vs, wf
     rfl
 
 theorem putValues_length (vs : List (Option Bytes)) (acc : Nat) :
-    vs.foldl (fun acc v => match v with
-      | some b => acc + 4 + b.length
-      | none => acc + 4) acc = acc + (putValues vs).length := by
+    vs.foldl valueLenStep acc = acc + (putValues vs).length := by
   induction vs generalizing acc with
   | nil => simp [putValues]
   | cons v vs ih =>
     cases v with
     | none =>
-      simp only [List.foldl_cons, putValues, putValue, List.length_append, be32i_length]
+      simp only [List.foldl_cons, valueLenStep, putValues, putValue, List.length_append, be32i_length]
       rw [ih]; omega
     | some b =>
-      simp only [List.foldl_cons, putValues, putValue, List.length_append, be32_length]
+      simp only [List.foldl_cons, valueLenStep, putValues, putValue, List.length_append, be32_length]
       rw [ih]; omega
 
 /-! error / notice fields -/
